@@ -570,6 +570,220 @@ Theorem C12_nat_example_text :
 Proof. exact ex_text. Qed.
 Print Assumptions C12_nat_example_text.
 
+(** * Part 3b (package C12s; C12_cache_..., C12_sat_natural..., C12_sat_small_vars...):
+      [SatCountCache] objects kept over the life of a manager, the counting
+      recursion over the model of [Natural], and [vars] below the number of levels
+
+    Models: DD/SatCache.v (manager events [EGrow] / [EGc] / [EReorder] / [ECount],
+    the counters as [Manager::gc] / [Manager::reorder] maintain them, a table
+    of cache objects, [nat_ops], [uni_counts]); proofs DD/SatCacheProofs.v,
+    DD/SatNatProofs.v, DD/SatIntProofs.v, DD/SatSmallVars.v.
+    - [mgr_ok m]: the manager holds a well-formed binary diagram;
+    - [hist_valid m evs]: every event is possible ([EGrow]: no node disappears
+      and no child list changes; [EGc] / [EReorder]: ANY well-formed table of
+      the same kind -- node ids may be freed and re-used for other functions by
+      later events; [ECount]: the edge exists);
+    - [run_events o alls m cs evs]: the values the [ECount] events return, each
+      call going through [clear_if_invalid] + the cached recursion on the cache
+      object named by the event; [ref_events]: the same calls on fresh caches
+      without caching; [exact_events]: the numbers of satisfying assignments. *)
+From OxiVerif Require Import DD.SatCache DD.SatCacheProofs DD.SatNatProofs DD.SatIntProofs DD.SatSmallVars.
+From OxiVerif Require DD.Pick.
+
+(** the epoch discipline is decidable on two snapshots ... *)
+Theorem C12_cache_same_table_decidable : forall s s', same_table_b s s' = true <-> same_table s s'.
+Proof. exact same_table_b_spec. Qed.
+Print Assumptions C12_cache_same_table_decidable.
+
+(** ... and follows from the step relation: an unchanged [gc_count] means that
+    the table was only extended (the hypothesis [hist_ok] of the C12_sat_history theorems) *)
+Theorem C12_cache_same_gc_same_table : forall evs m, WF (m_snap m) -> hist_valid m evs ->
+  m_gc (final_mgr m evs) = m_gc m -> same_table (m_snap m) (m_snap (final_mgr m evs)).
+Proof. exact hist_same_gc. Qed.
+Print Assumptions C12_cache_same_gc_same_table.
+
+(** what the correspondence run checks between consecutive snapshots of the
+    real manager: counters do not decrease, a reordering shows in [gc_count],
+    unchanged [gc_count] = only growth *)
+Theorem C12_cache_obs_ok : forall evs m, WF (m_snap m) -> hist_valid m evs ->
+  obs_ok_b m (final_mgr m evs) = true.
+Proof. exact obs_ok_of_history. Qed.
+Print Assumptions C12_cache_obs_ok.
+
+(** kept caches are transparent, for every number type, any number of cache
+    objects, any history *)
+Theorem C12_cache_history_correct : forall (A : Type) (o : numops A) (alls : positive -> bool) evs m,
+  mgr_ok m -> hist_valid m evs ->
+  exists vs cs', run_events o alls m (PositiveMap.empty _) evs = Some (vs, final_mgr m evs, cs') /\
+    map Some vs = ref_events o true m evs.
+Proof. exact @cache_history_correct. Qed.
+Print Assumptions C12_cache_history_correct.
+
+(** exact arithmetic: every served count is the number of satisfying assignments *)
+Theorem C12_cache_history_exact : forall alls evs m, mgr_ok m -> hist_valid m evs -> counting_hist m evs ->
+  exists cs', run_events exact_ops alls m (PositiveMap.empty _) evs =
+              Some (exact_events m evs, final_mgr m evs, cs').
+Proof. exact cache_history_exact. Qed.
+Print Assumptions C12_cache_history_exact.
+
+(** [Natural] (the model of bigint.rs in the recursion): a well-formed number
+    holding exactly the count, never NaN *)
+Theorem C12_cache_history_natural : forall alls evs m,
+  mgr_ok m -> hist_valid m evs -> counting_hist m evs -> u32_hist evs ->
+  exists vs cs', run_events nat_ops alls m (PositiveMap.empty _) evs = Some (vs, final_mgr m evs, cs') /\
+    Forall2 (fun x a => Inv x /\ val x = Some a) vs (exact_events m evs).
+Proof. exact cache_history_nat. Qed.
+Print Assumptions C12_cache_history_natural.
+
+(** [Saturating<uW>]: the count, or the marker exactly when the type cannot hold
+    [2^vars] (ZBDD: the count) *)
+Theorem C12_cache_history_saturating : forall w, (2 <= w)%N -> forall alls evs m,
+  mgr_ok m -> hist_valid m evs -> counting_hist m evs -> sat_hist w m evs ->
+  exists cs', run_events (sat_ops w) alls m (PositiveMap.empty _) evs =
+              Some (sat_events w m evs, final_mgr m evs, cs').
+Proof. exact cache_history_saturating. Qed.
+Print Assumptions C12_cache_history_saturating.
+
+(** after a collection or a reordering no entry stored before it is read *)
+Theorem C12_cache_stale_entries_never_read : forall (A : Type) (o : numops A) m ev (c : scache) vars e,
+  (exists s', ev = EGc s' \/ ev = EReorder s') -> (c_epoch c <= m_gc m)%N ->
+  sat_query o c (m_gc (mgr_step m ev)) (m_snap (mgr_step m ev)) vars e =
+  sat_query o (mkCache (m_gc (mgr_step m ev)) vars (PositiveMap.empty A) (c_all c))
+            (m_gc (mgr_step m ev)) (m_snap (mgr_step m ev)) vars e.
+Proof. exact @stale_entries_never_read. Qed.
+Print Assumptions C12_cache_stale_entries_never_read.
+
+(** [pick_cube_uniform_edge]: the two counts its closure obtains through the
+    caller's cache are those of the cofactors (C13: branch probability) *)
+Theorem C12_cache_uni_counts : forall (A : Type) (o : numops A) view m c e l t x, mgr_ok m -> cinv o m c ->
+  view (m_snap m) e = Pick.CNode l t x -> ref_ok (m_snap m) (eref t) -> ref_ok (m_snap m) (eref x) ->
+  exists ct ce c', uni_counts o view c (m_gc m) (m_snap m) e = Some (ct, ce, c') /\
+    sat_ref o (m_snap m) (nlevels (m_snap m)) t = Some ct /\
+    sat_ref o (m_snap m) (nlevels (m_snap m)) x = Some ce /\ cinv o m c'.
+Proof. exact @uni_counts_sound. Qed.
+Print Assumptions C12_cache_uni_counts.
+
+(** the tag rule is necessary: each weakening has a history with a wrong count *)
+Theorem C12_cache_rule_without_gc_count_refuted :
+  exists m evs, mgr_ok m /\ hist_valid m evs /\ counting_hist m evs /\
+    exists vs m' cs', run_events_with exact_ops (@clear_vars_only N) true (fun _ => true) m (PositiveMap.empty _) evs
+                      = Some (vs, m', cs') /\ vs <> exact_events m evs.
+Proof. exact rule_without_gc_count_refuted. Qed.
+Print Assumptions C12_cache_rule_without_gc_count_refuted.
+
+Theorem C12_cache_reorder_without_gc_bump_refuted :
+  exists m evs, mgr_ok m /\ hist_valid m evs /\ counting_hist m evs /\
+    exists vs m' cs', run_events_with exact_ops (@clear_if_invalid N) false (fun _ => true) m (PositiveMap.empty _) evs
+                      = Some (vs, m', cs') /\ vs <> exact_events m evs.
+Proof. exact reorder_without_gc_bump_refuted. Qed.
+Print Assumptions C12_cache_reorder_without_gc_bump_refuted.
+
+Theorem C12_cache_rule_without_vars_refuted :
+  exists m evs, mgr_ok m /\ hist_valid m evs /\ counting_hist m evs /\
+    exists vs m' cs', run_events_with exact_ops (@clear_epoch_only N) true (fun _ => true) m (PositiveMap.empty _) evs
+                      = Some (vs, m', cs') /\ vs <> exact_events m evs.
+Proof. exact rule_without_vars_refuted. Qed.
+Print Assumptions C12_cache_rule_without_vars_refuted.
+
+(** non-vacuity: count, drop, collect, build another function on the freed id 2, count *)
+Theorem C12_cache_example :
+  mgr_ok ex_mgr0 /\ hist_valid ex_mgr0 ex_reuse_events /\ counting_hist ex_mgr0 ex_reuse_events /\
+  exact_events ex_mgr0 ex_reuse_events = [5; 2]%N /\
+  match run_events exact_ops (fun _ => true) ex_mgr0 (PositiveMap.empty _) ex_reuse_events with
+  | Some (vs, m', _) => vs = [5; 2]%N /\ m_gc m' = 1%N
+  | None => False
+  end.
+Proof. exact ex_reuse_exact. Qed.
+Print Assumptions C12_cache_example.
+
+Theorem C12_cache_example_types :
+  (u32_hist ex_reuse_events /\
+   match run_events nat_ops (fun _ => true) ex_mgr0 (PositiveMap.empty _) ex_reuse_events with
+   | Some (vs, _, _) => map val vs = [Some 5%N; Some 2%N]
+   | None => False
+   end) /\
+  (sat_hist 64 ex_mgr0 ex_reuse_events /\
+   match run_events (sat_ops 64) (fun _ => true) ex_mgr0 (PositiveMap.empty _) ex_reuse_events with
+   | Some (vs, _, _) => vs = [5; 2]%N
+   | None => False
+   end /\
+   sat_ref (sat_ops 64) ex_sat_bdd 64 (xe (RN 4)) = Some (sat_max 64) /\
+   sat_ref (sat_ops 64) ex_sat_bdd 63 (xe (RN 4)) = Some (5 * 2 ^ 60)%N).
+Proof. exact (conj ex_reuse_nat ex_reuse_u64). Qed.
+Print Assumptions C12_cache_example_types.
+
+(** one call over [Natural] / [Saturating<uW>] *)
+Theorem C12_sat_natural : forall s vars e, WF s -> counting_kind (s_kind s) -> nlevels s <= vars ->
+  (N.of_nat vars < 2 ^ 32)%N -> ref_ok s (eref e) ->
+  exists x, sat_ref nat_ops s vars e = Some x /\ Inv x /\ val x = Some (exact_count s vars e).
+Proof. exact sat_ref_nat. Qed.
+Print Assumptions C12_sat_natural.
+
+Theorem C12_sat_saturating_query : forall w, (2 <= w)%N -> forall s vars e,
+  WF s -> counting_kind (s_kind s) -> (s_kind s = KBcdd -> terms_kind s) ->
+  (s_kind s = KZbdd -> (N.of_nat (nlevels s) < w)%N) ->
+  nlevels s <= vars -> ref_ok s (eref e) ->
+  sat_ref (sat_ops w) s vars e = Some (sat_expected w (s_kind s) vars (exact_count s vars e)).
+Proof. exact sat_ref_saturating. Qed.
+Print Assumptions C12_sat_saturating_query.
+
+Theorem C12_sat_ops_saturating : forall w a b k,
+  n_zero (sat_ops w) = su_from_u32 0 /\ n_one (sat_ops w) = su_from_u32 1 /\
+  n_add (sat_ops w) a b = su_add w a b /\
+  n_shl (sat_ops w) a k = su_shl w a (N.of_nat k) /\
+  ((N.of_nat k < w)%N -> n_shr (sat_ops w) a k = su_shr w a (N.of_nat k)).
+Proof. exact sat_ops_saturating. Qed.
+Print Assumptions C12_sat_ops_saturating.
+
+(** [vars] below the number of levels (any [vars]): BDD / BCDD exact as long as
+    no path visits more than [vars] nodes -- in particular whenever the function
+    depends on at most [vars] variables; ZBDD: the quotient, exact iff the
+    power of two divides the number of models *)
+Theorem C12_sat_small_vars : forall s vars e, WF s -> s_kind s = KBdd \/ s_kind s = KBcdd ->
+  ref_ok s (eref e) -> height_of s (eref e) <= vars ->
+  exists v, sat_ref exact_ops s vars e = Some v /\
+    (v * 2 ^ N.of_nat (nlevels s) =
+     2 ^ N.of_nat vars * count_levels (nlevels s) (match s_kind s with KBcdd => fun_bcdd s e | _ => fun_bdd s (eref e) end))%N.
+Proof. exact sat_ref_small_vars. Qed.
+Print Assumptions C12_sat_small_vars.
+
+Theorem C12_sat_small_vars_quotient : forall s vars e v, WF s -> s_kind s = KBdd \/ s_kind s = KBcdd ->
+  ref_ok s (eref e) -> height_of s (eref e) <= vars -> vars <= nlevels s ->
+  sat_ref exact_ops s vars e = Some v ->
+  (v * 2 ^ N.of_nat (nlevels s - vars) =
+   count_levels (nlevels s) (match s_kind s with KBcdd => fun_bcdd s e | _ => fun_bdd s (eref e) end))%N.
+Proof. exact sat_ref_small_vars_quotient. Qed.
+Print Assumptions C12_sat_small_vars_quotient.
+
+Theorem C12_sat_small_vars_height : forall s, WF s -> binary (s_kind s) -> forall f r, ref_ok s r ->
+  height s f r <= nlevels s - rlevel s r.
+Proof. exact height_le_levels. Qed.
+Print Assumptions C12_sat_small_vars_height.
+
+Theorem C12_sat_small_vars_zbdd : forall s vars r, WF s -> s_kind s = KZbdd -> ref_ok s r ->
+  vars < nlevels s ->
+  sat_zbdd s (S (nlevels s)) vars r =
+  Some (count_levels (nlevels s) (fun_zbdd s r) / 2 ^ N.of_nat (nlevels s - vars))%N.
+Proof. exact sat_zbdd_small_vars. Qed.
+Print Assumptions C12_sat_small_vars_zbdd.
+
+Theorem C12_sat_small_vars_zbdd_exact : forall s vars r v, WF s -> s_kind s = KZbdd -> ref_ok s r ->
+  vars < nlevels s ->
+  sat_zbdd s (S (nlevels s)) vars r = Some v ->
+  ((v * 2 ^ N.of_nat (nlevels s - vars) = count_levels (nlevels s) (fun_zbdd s r))%N <->
+   (count_levels (nlevels s) (fun_zbdd s r) mod 2 ^ N.of_nat (nlevels s - vars) = 0)%N).
+Proof. exact sat_zbdd_small_vars_exact. Qed.
+Print Assumptions C12_sat_small_vars_zbdd_exact.
+
+Theorem C12_sat_small_vars_example :
+  height_of ex_sat_bdd (RN 4) = 3 /\ height_of ex_sat_bdd (RN 2) = 1 /\
+  sat_ref exact_ops ex_sat_bdd 1 (xe (RN 2)) = Some 1%N /\
+  sat_ref exact_ops ex_sat_bdd 2 (xe (RN 2)) = Some 2%N /\
+  sat_ref exact_ops ex_sat_bdd 2 (xe (RN 4)) = Some 2%N /\
+  sat_ref exact_ops ex_sat_zbdd 2 (xe (RN 6)) = Some 2%N.
+Proof. exact ex_small_vars. Qed.
+Print Assumptions C12_sat_small_vars_example.
+
 (** * Part 4 (C12_nat_to_f64_..., C12_f64_..., C12_sat_f64_...): floating point
 
     [Natural -> f64] (model [to_f64_bits], Num/Natural.v; proofs
@@ -854,217 +1068,3 @@ Theorem C12_sat_f64_example_hyps :
   sat_ref f64_ops ex_sat_bdd 1100 (xe (RN 4)) = Some f64c_pos_inf.
 Proof. exact ex_sat_f64_hyps. Qed.
 Print Assumptions C12_sat_f64_example_hyps.
-
-(** * Part 4 (package C12s; C12_cache_..., C12_sat_natural..., C12_sat_small_vars...):
-      [SatCountCache] objects kept over the life of a manager, the counting
-      recursion over the model of [Natural], and [vars] below the number of levels
-
-    Models: DD/SatCache.v (manager events [EGrow] / [EGc] / [EReorder] / [ECount],
-    the counters as [Manager::gc] / [Manager::reorder] maintain them, a table
-    of cache objects, [nat_ops], [uni_counts]); proofs DD/SatCacheProofs.v,
-    DD/SatNatProofs.v, DD/SatIntProofs.v, DD/SatSmallVars.v.
-    - [mgr_ok m]: the manager holds a well-formed binary diagram;
-    - [hist_valid m evs]: every event is possible ([EGrow]: no node disappears
-      and no child list changes; [EGc] / [EReorder]: ANY well-formed table of
-      the same kind -- node ids may be freed and re-used for other functions by
-      later events; [ECount]: the edge exists);
-    - [run_events o alls m cs evs]: the values the [ECount] events return, each
-      call going through [clear_if_invalid] + the cached recursion on the cache
-      object named by the event; [ref_events]: the same calls on fresh caches
-      without caching; [exact_events]: the numbers of satisfying assignments. *)
-From OxiVerif Require Import DD.SatCache DD.SatCacheProofs DD.SatNatProofs DD.SatIntProofs DD.SatSmallVars.
-From OxiVerif Require DD.Pick.
-
-(** the epoch discipline is decidable on two snapshots ... *)
-Theorem C12_cache_same_table_decidable : forall s s', same_table_b s s' = true <-> same_table s s'.
-Proof. exact same_table_b_spec. Qed.
-Print Assumptions C12_cache_same_table_decidable.
-
-(** ... and follows from the step relation: an unchanged [gc_count] means that
-    the table was only extended (the hypothesis [hist_ok] of the C12_sat_history theorems) *)
-Theorem C12_cache_same_gc_same_table : forall evs m, WF (m_snap m) -> hist_valid m evs ->
-  m_gc (final_mgr m evs) = m_gc m -> same_table (m_snap m) (m_snap (final_mgr m evs)).
-Proof. exact hist_same_gc. Qed.
-Print Assumptions C12_cache_same_gc_same_table.
-
-(** what the correspondence run checks between consecutive snapshots of the
-    real manager: counters do not decrease, a reordering shows in [gc_count],
-    unchanged [gc_count] = only growth *)
-Theorem C12_cache_obs_ok : forall evs m, WF (m_snap m) -> hist_valid m evs ->
-  obs_ok_b m (final_mgr m evs) = true.
-Proof. exact obs_ok_of_history. Qed.
-Print Assumptions C12_cache_obs_ok.
-
-(** kept caches are transparent, for every number type, any number of cache
-    objects, any history *)
-Theorem C12_cache_history_correct : forall (A : Type) (o : numops A) (alls : positive -> bool) evs m,
-  mgr_ok m -> hist_valid m evs ->
-  exists vs cs', run_events o alls m (PositiveMap.empty _) evs = Some (vs, final_mgr m evs, cs') /\
-    map Some vs = ref_events o true m evs.
-Proof. exact @cache_history_correct. Qed.
-Print Assumptions C12_cache_history_correct.
-
-(** exact arithmetic: every served count is the number of satisfying assignments *)
-Theorem C12_cache_history_exact : forall alls evs m, mgr_ok m -> hist_valid m evs -> counting_hist m evs ->
-  exists cs', run_events exact_ops alls m (PositiveMap.empty _) evs =
-              Some (exact_events m evs, final_mgr m evs, cs').
-Proof. exact cache_history_exact. Qed.
-Print Assumptions C12_cache_history_exact.
-
-(** [Natural] (the model of bigint.rs in the recursion): a well-formed number
-    holding exactly the count, never NaN *)
-Theorem C12_cache_history_natural : forall alls evs m,
-  mgr_ok m -> hist_valid m evs -> counting_hist m evs -> u32_hist evs ->
-  exists vs cs', run_events nat_ops alls m (PositiveMap.empty _) evs = Some (vs, final_mgr m evs, cs') /\
-    Forall2 (fun x a => Inv x /\ val x = Some a) vs (exact_events m evs).
-Proof. exact cache_history_nat. Qed.
-Print Assumptions C12_cache_history_natural.
-
-(** [Saturating<uW>]: the count, or the marker exactly when the type cannot hold
-    [2^vars] (ZBDD: the count) *)
-Theorem C12_cache_history_saturating : forall w, (2 <= w)%N -> forall alls evs m,
-  mgr_ok m -> hist_valid m evs -> counting_hist m evs -> sat_hist w m evs ->
-  exists cs', run_events (sat_ops w) alls m (PositiveMap.empty _) evs =
-              Some (sat_events w m evs, final_mgr m evs, cs').
-Proof. exact cache_history_saturating. Qed.
-Print Assumptions C12_cache_history_saturating.
-
-(** after a collection or a reordering no entry stored before it is read *)
-Theorem C12_cache_stale_entries_never_read : forall (A : Type) (o : numops A) m ev (c : scache) vars e,
-  (exists s', ev = EGc s' \/ ev = EReorder s') -> (c_epoch c <= m_gc m)%N ->
-  sat_query o c (m_gc (mgr_step m ev)) (m_snap (mgr_step m ev)) vars e =
-  sat_query o (mkCache (m_gc (mgr_step m ev)) vars (PositiveMap.empty A) (c_all c))
-            (m_gc (mgr_step m ev)) (m_snap (mgr_step m ev)) vars e.
-Proof. exact @stale_entries_never_read. Qed.
-Print Assumptions C12_cache_stale_entries_never_read.
-
-(** [pick_cube_uniform_edge]: the two counts its closure obtains through the
-    caller's cache are those of the cofactors (C13: branch probability) *)
-Theorem C12_cache_uni_counts : forall (A : Type) (o : numops A) view m c e l t x, mgr_ok m -> cinv o m c ->
-  view (m_snap m) e = Pick.CNode l t x -> ref_ok (m_snap m) (eref t) -> ref_ok (m_snap m) (eref x) ->
-  exists ct ce c', uni_counts o view c (m_gc m) (m_snap m) e = Some (ct, ce, c') /\
-    sat_ref o (m_snap m) (nlevels (m_snap m)) t = Some ct /\
-    sat_ref o (m_snap m) (nlevels (m_snap m)) x = Some ce /\ cinv o m c'.
-Proof. exact @uni_counts_sound. Qed.
-Print Assumptions C12_cache_uni_counts.
-
-(** the tag rule is necessary: each weakening has a history with a wrong count *)
-Theorem C12_cache_rule_without_gc_count_refuted :
-  exists m evs, mgr_ok m /\ hist_valid m evs /\ counting_hist m evs /\
-    exists vs m' cs', run_events_with exact_ops (@clear_vars_only N) true (fun _ => true) m (PositiveMap.empty _) evs
-                      = Some (vs, m', cs') /\ vs <> exact_events m evs.
-Proof. exact rule_without_gc_count_refuted. Qed.
-Print Assumptions C12_cache_rule_without_gc_count_refuted.
-
-Theorem C12_cache_reorder_without_gc_bump_refuted :
-  exists m evs, mgr_ok m /\ hist_valid m evs /\ counting_hist m evs /\
-    exists vs m' cs', run_events_with exact_ops (@clear_if_invalid N) false (fun _ => true) m (PositiveMap.empty _) evs
-                      = Some (vs, m', cs') /\ vs <> exact_events m evs.
-Proof. exact reorder_without_gc_bump_refuted. Qed.
-Print Assumptions C12_cache_reorder_without_gc_bump_refuted.
-
-Theorem C12_cache_rule_without_vars_refuted :
-  exists m evs, mgr_ok m /\ hist_valid m evs /\ counting_hist m evs /\
-    exists vs m' cs', run_events_with exact_ops (@clear_epoch_only N) true (fun _ => true) m (PositiveMap.empty _) evs
-                      = Some (vs, m', cs') /\ vs <> exact_events m evs.
-Proof. exact rule_without_vars_refuted. Qed.
-Print Assumptions C12_cache_rule_without_vars_refuted.
-
-(** non-vacuity: count, drop, collect, build another function on the freed id 2, count *)
-Theorem C12_cache_example :
-  mgr_ok ex_mgr0 /\ hist_valid ex_mgr0 ex_reuse_events /\ counting_hist ex_mgr0 ex_reuse_events /\
-  exact_events ex_mgr0 ex_reuse_events = [5; 2]%N /\
-  match run_events exact_ops (fun _ => true) ex_mgr0 (PositiveMap.empty _) ex_reuse_events with
-  | Some (vs, m', _) => vs = [5; 2]%N /\ m_gc m' = 1%N
-  | None => False
-  end.
-Proof. exact ex_reuse_exact. Qed.
-Print Assumptions C12_cache_example.
-
-Theorem C12_cache_example_types :
-  (u32_hist ex_reuse_events /\
-   match run_events nat_ops (fun _ => true) ex_mgr0 (PositiveMap.empty _) ex_reuse_events with
-   | Some (vs, _, _) => map val vs = [Some 5%N; Some 2%N]
-   | None => False
-   end) /\
-  (sat_hist 64 ex_mgr0 ex_reuse_events /\
-   match run_events (sat_ops 64) (fun _ => true) ex_mgr0 (PositiveMap.empty _) ex_reuse_events with
-   | Some (vs, _, _) => vs = [5; 2]%N
-   | None => False
-   end /\
-   sat_ref (sat_ops 64) ex_sat_bdd 64 (xe (RN 4)) = Some (sat_max 64) /\
-   sat_ref (sat_ops 64) ex_sat_bdd 63 (xe (RN 4)) = Some (5 * 2 ^ 60)%N).
-Proof. exact (conj ex_reuse_nat ex_reuse_u64). Qed.
-Print Assumptions C12_cache_example_types.
-
-(** one call over [Natural] / [Saturating<uW>] *)
-Theorem C12_sat_natural : forall s vars e, WF s -> counting_kind (s_kind s) -> nlevels s <= vars ->
-  (N.of_nat vars < 2 ^ 32)%N -> ref_ok s (eref e) ->
-  exists x, sat_ref nat_ops s vars e = Some x /\ Inv x /\ val x = Some (exact_count s vars e).
-Proof. exact sat_ref_nat. Qed.
-Print Assumptions C12_sat_natural.
-
-Theorem C12_sat_saturating_query : forall w, (2 <= w)%N -> forall s vars e,
-  WF s -> counting_kind (s_kind s) -> (s_kind s = KBcdd -> terms_kind s) ->
-  (s_kind s = KZbdd -> (N.of_nat (nlevels s) < w)%N) ->
-  nlevels s <= vars -> ref_ok s (eref e) ->
-  sat_ref (sat_ops w) s vars e = Some (sat_expected w (s_kind s) vars (exact_count s vars e)).
-Proof. exact sat_ref_saturating. Qed.
-Print Assumptions C12_sat_saturating_query.
-
-Theorem C12_sat_ops_saturating : forall w a b k,
-  n_zero (sat_ops w) = su_from_u32 0 /\ n_one (sat_ops w) = su_from_u32 1 /\
-  n_add (sat_ops w) a b = su_add w a b /\
-  n_shl (sat_ops w) a k = su_shl w a (N.of_nat k) /\
-  ((N.of_nat k < w)%N -> n_shr (sat_ops w) a k = su_shr w a (N.of_nat k)).
-Proof. exact sat_ops_saturating. Qed.
-Print Assumptions C12_sat_ops_saturating.
-
-(** [vars] below the number of levels (any [vars]): BDD / BCDD exact as long as
-    no path visits more than [vars] nodes -- in particular whenever the function
-    depends on at most [vars] variables; ZBDD: the quotient, exact iff the
-    power of two divides the number of models *)
-Theorem C12_sat_small_vars : forall s vars e, WF s -> s_kind s = KBdd \/ s_kind s = KBcdd ->
-  ref_ok s (eref e) -> height_of s (eref e) <= vars ->
-  exists v, sat_ref exact_ops s vars e = Some v /\
-    (v * 2 ^ N.of_nat (nlevels s) =
-     2 ^ N.of_nat vars * count_levels (nlevels s) (match s_kind s with KBcdd => fun_bcdd s e | _ => fun_bdd s (eref e) end))%N.
-Proof. exact sat_ref_small_vars. Qed.
-Print Assumptions C12_sat_small_vars.
-
-Theorem C12_sat_small_vars_quotient : forall s vars e v, WF s -> s_kind s = KBdd \/ s_kind s = KBcdd ->
-  ref_ok s (eref e) -> height_of s (eref e) <= vars -> vars <= nlevels s ->
-  sat_ref exact_ops s vars e = Some v ->
-  (v * 2 ^ N.of_nat (nlevels s - vars) =
-   count_levels (nlevels s) (match s_kind s with KBcdd => fun_bcdd s e | _ => fun_bdd s (eref e) end))%N.
-Proof. exact sat_ref_small_vars_quotient. Qed.
-Print Assumptions C12_sat_small_vars_quotient.
-
-Theorem C12_sat_small_vars_height : forall s, WF s -> binary (s_kind s) -> forall f r, ref_ok s r ->
-  height s f r <= nlevels s - rlevel s r.
-Proof. exact height_le_levels. Qed.
-Print Assumptions C12_sat_small_vars_height.
-
-Theorem C12_sat_small_vars_zbdd : forall s vars r, WF s -> s_kind s = KZbdd -> ref_ok s r ->
-  vars < nlevels s ->
-  sat_zbdd s (S (nlevels s)) vars r =
-  Some (count_levels (nlevels s) (fun_zbdd s r) / 2 ^ N.of_nat (nlevels s - vars))%N.
-Proof. exact sat_zbdd_small_vars. Qed.
-Print Assumptions C12_sat_small_vars_zbdd.
-
-Theorem C12_sat_small_vars_zbdd_exact : forall s vars r v, WF s -> s_kind s = KZbdd -> ref_ok s r ->
-  vars < nlevels s ->
-  sat_zbdd s (S (nlevels s)) vars r = Some v ->
-  ((v * 2 ^ N.of_nat (nlevels s - vars) = count_levels (nlevels s) (fun_zbdd s r))%N <->
-   (count_levels (nlevels s) (fun_zbdd s r) mod 2 ^ N.of_nat (nlevels s - vars) = 0)%N).
-Proof. exact sat_zbdd_small_vars_exact. Qed.
-Print Assumptions C12_sat_small_vars_zbdd_exact.
-
-Theorem C12_sat_small_vars_example :
-  height_of ex_sat_bdd (RN 4) = 3 /\ height_of ex_sat_bdd (RN 2) = 1 /\
-  sat_ref exact_ops ex_sat_bdd 1 (xe (RN 2)) = Some 1%N /\
-  sat_ref exact_ops ex_sat_bdd 2 (xe (RN 2)) = Some 2%N /\
-  sat_ref exact_ops ex_sat_bdd 2 (xe (RN 4)) = Some 2%N /\
-  sat_ref exact_ops ex_sat_zbdd 2 (xe (RN 6)) = Some 2%N.
-Proof. exact ex_small_vars. Qed.
-Print Assumptions C12_sat_small_vars_example.
